@@ -4,6 +4,7 @@ package zygo
 
 import (
 	"fmt"
+	"reflect"
 	"sort"
 	"strings"
 )
@@ -82,6 +83,13 @@ func (env *Zlisp) VerifSymtab() (map[string]int, map[int]string) {
 }
 
 func (env *Zlisp) VerifNextSymbol() int { return env.nextsymbol }
+
+// VerifSharesSymtab reports whether two interpreters use the very same
+// symbol table maps (not merely equal contents).
+func (env *Zlisp) VerifSharesSymtab(o *Zlisp) bool {
+	return reflect.ValueOf(env.symtable).Pointer() == reflect.ValueOf(o.symtable).Pointer() &&
+		reflect.ValueOf(env.revsymtable).Pointer() == reflect.ValueOf(o.revsymtable).Pointer()
+}
 
 func (env *Zlisp) VerifParser() *Parser { return env.parser }
 
